@@ -79,6 +79,10 @@ def _is_docstring(st) -> bool:
     return isinstance(st, ast.Expr) and isinstance(st.value, ast.Constant) and isinstance(st.value.value, str)
 
 
+def _attr_names(e) -> set[str]:
+    return {x.attr for x in ast.walk(e) if isinstance(x, ast.Attribute)}
+
+
 def _simple_arg(e) -> bool:
     if isinstance(e, (ast.Name, ast.Constant)):
         return True
@@ -315,6 +319,8 @@ class Inliner:
             if isinstance(x, ast.Name) and isinstance(x.ctx, ast.Load):
                 uses[x.id] = uses.get(x.id, 0) + 1
         rename: dict[str, str] = {}
+        # attributes the helper itself (re)binds: an argument that reads one of them must be evaluated before the body runs
+        stored_attrs = {x.attr for x in _walk_no_nested(body) if isinstance(x, ast.Attribute) and isinstance(x.ctx, (ast.Store, ast.Del))}
         for p in pnames:
             a = bound[p]
             if p in stored:                       # parameter reassigned in the helper: needs a real local
@@ -322,7 +328,9 @@ class Inliner:
                 if new != p:
                     rename[p] = new
                 pre.append(ast.Assign([ast.Name(new, ast.Store())], _clone(a), lineno=call.lineno, col_offset=call.col_offset))
-            elif _simple_arg(a) or uses.get(p, 0) <= 1:
+            elif (_simple_arg(a) and not (_attr_names(a) & stored_attrs)) or uses.get(p, 0) == 0 and _pure(a):
+                # only names / attribute chains / constants are substituted: an arbitrary argument is evaluated once, at the call, before
+                # the helper body - it gets a real local (the alias elimination removes it again where that is safe)
                 if not (isinstance(a, ast.Name) and a.id == p):
                     mapping[p] = a
             else:
@@ -406,7 +414,7 @@ class Inliner:
         return {x.id for x in ast.walk(caller) if isinstance(x, ast.Name)} | {a.arg for a in _params(caller)}
 
     def _loads_after(self, caller, lineno: int) -> set[str]:
-        return {x.id for x in ast.walk(caller) if isinstance(x, ast.Name) and isinstance(x.ctx, ast.Load) and getattr(x, "lineno", 0) > lineno}
+        return {x.id for x in ast.walk(caller) if isinstance(x, ast.Name) and isinstance(x.ctx, ast.Load) and (getattr(x, "lineno", 0) or 0) > lineno}
 
     def _unwrap(self, value):
         aw = isinstance(value, ast.Await)
@@ -543,7 +551,7 @@ class Inliner:
             for t in st.targets:
                 keep |= {x.id for x in ast.walk(t) if isinstance(x, ast.Name)}
         # a helper local may reuse a caller name when the caller does not read that name after the call
-        later = self._loads_after(caller, getattr(st, "end_lineno", st.lineno))
+        later = self._loads_after(caller, getattr(st, "end_lineno", None) or getattr(st, "lineno", 0) or 0)
         keep |= {n for n in names if n not in later and n not in {a.arg for a in _params(caller)}}
         b = self._bind(h, call, recv, names, keep)
         if b is None:
@@ -609,7 +617,7 @@ class Inliner:
         if not h or h.failed or aw != h.is_async:
             return None
         names = self._caller_names(caller)
-        later = self._loads_after(caller, st.lineno)
+        later = self._loads_after(caller, getattr(st, "lineno", 0) or 0)
         keep = {n for n in names if n not in later and n not in {a.arg for a in _params(caller)}}
         b = self._bind(h, call, recv, names, keep)
         if b is None:
@@ -649,8 +657,8 @@ class Inliner:
         # drop helpers that were inlined everywhere
         removed = 0
         for (cls, name), h in self.helpers.items():
-            if h.failed or not h.inlined:
-                continue
+            if h.failed or not h.inlined or not name.startswith("_") or name in getattr(self, "external", ()):
+                continue          # a public name, or a name another file calls, may be used from outside this module: its definition stays
             if self._still_called(name):
                 continue
             owner = self.tree if cls is None else next(c for c in self.tree.body if isinstance(c, ast.ClassDef) and c.name == cls)
@@ -692,8 +700,10 @@ class Inliner:
                     sub.body = self._rewrite_block(sub.body, cls, sub, True)
 
 
-def inline_new_helpers(tree: ast.Module, known_functions: set[str]) -> int:
-    return Inliner(tree, known_functions).run()
+def inline_new_helpers(tree: ast.Module, known_functions: set[str], external_calls: set[str] | None = None) -> int:
+    inl = Inliner(tree, known_functions)
+    inl.external = external_calls or set()
+    return inl.run()
 
 
 # ------------------------------------------------------------------------------------------------ 3. alias elimination
@@ -738,8 +748,32 @@ def _inert(node, names: set[str]) -> bool:
     return True
 
 
+_ORDER: dict[int, tuple[int, int]] = {}
+
+
+def _number(fn) -> None:
+    """structural (source-order) numbering of fn's nodes: line numbers are useless after inlining, where copied statements keep the
+    positions of the helper they came from"""
+    _ORDER.clear()
+    counter = [0]
+
+    def visit(n):
+        start = counter[0]
+        counter[0] += 1
+        for ch in ast.iter_child_nodes(n):
+            if isinstance(ch, (ast.expr_context, ast.operator, ast.unaryop, ast.boolop, ast.cmpop)):
+                continue
+            visit(ch)
+        _ORDER[id(n)] = (start, counter[0] - 1)
+    visit(fn)
+
+
 def _pos(n):
-    return (n.lineno, n.col_offset)
+    return _ORDER.get(id(n), (0, 0))[0]
+
+
+def _end(n):
+    return _ORDER.get(id(n), (0, 0))[1]
 
 
 def eliminate_new_aliases(fn, known_locals: set[str], local_names: set[str]) -> int:
@@ -750,6 +784,7 @@ def eliminate_new_aliases(fn, known_locals: set[str], local_names: set[str]) -> 
         new = local_names - known_locals
         if not new:
             break
+        _number(fn)
         # binding sites
         binds: dict[str, list] = {}
         for x in _walk_no_nested(fn.body):
@@ -783,7 +818,7 @@ def eliminate_new_aliases(fn, known_locals: set[str], local_names: set[str]) -> 
                         and any(x is uses[0] for x in ast.walk(nxt))
                         and all(_is_ancestor(y, uses[0]) or _simple_arg(y) or isinstance(y, (ast.expr_context, ast.operator, ast.unaryop, ast.boolop, ast.cmpop))
                                 or _pos(y) > _pos(uses[0]) or isinstance(y, ast.Starred)
-                                for y in ast.walk(nxt) if hasattr(y, "lineno") and y is not nxt and _pos(y) <= _pos(uses[0]) and y is not uses[0])):
+                                for y in ast.walk(nxt) if id(y) in _ORDER and y is not nxt and _pos(y) <= _pos(uses[0]) and y is not uses[0])):
                     continue
                 if isinstance(nxt, ast.If) and not any(x is uses[0] for x in ast.walk(nxt.test)):
                     continue
@@ -800,8 +835,7 @@ def eliminate_new_aliases(fn, known_locals: set[str], local_names: set[str]) -> 
             for s in following:
                 if _pos(s) > _pos(last):
                     break
-                end = (getattr(s, "end_lineno", s.lineno), getattr(s, "end_col_offset", 0))
-                if end < _pos(last):
+                if _end(s) < _pos(last):
                     # a statement wholly before the last use
                     if not _inert(s, vnames):
                         ok = False
@@ -809,7 +843,7 @@ def eliminate_new_aliases(fn, known_locals: set[str], local_names: set[str]) -> 
                 else:
                     # the statement that contains the last use: everything in it that is evaluated before the use
                     for y in ast.walk(s):
-                        if isinstance(y, ast.stmt) or not hasattr(y, "lineno"):
+                        if isinstance(y, ast.stmt) or id(y) not in _ORDER:
                             continue
                         if _pos(y) < _pos(last) and isinstance(y, (ast.Await, ast.Call)) and not _inert(y, vnames) and not _is_ancestor(y, last):
                             ok = False
@@ -817,8 +851,7 @@ def eliminate_new_aliases(fn, known_locals: set[str], local_names: set[str]) -> 
                     # compound statement: nested statements before the use
                     for y in ast.walk(s):
                         if isinstance(y, ast.stmt) and y is not s:
-                            yend = (getattr(y, "end_lineno", y.lineno), getattr(y, "end_col_offset", 0))
-                            if yend < _pos(last) and not _inert(y, vnames):
+                            if _end(y) < _pos(last) and not _inert(y, vnames):
                                 ok = False
                                 break
                     break
